@@ -472,7 +472,7 @@ class ServerKeys(PartialEvent):
     def _synthdef_name(self):
         if self('variant') is not None\
         and self('synth_desc') is not None\
-        and self('synth_desc').has_variants():
+        and self('synth_desc').has_variants:
             return f"{self('instrument')}.{self('variant')}"
         else:
             return self('instrument')
